@@ -254,6 +254,27 @@ def c15_sequence(rec, rng, kind, start, length, case):
                         c = rng.randint(0, 80)
                         if c not in used and c not in chs:
                             chs.append(c)
+                if withch and rng.random() < 0.2:
+                    # channel list and platform list of different lengths: nothing says whether that is refused or the
+                    # longer one is cut - but afterwards channels and platforms still pair up one to one
+                    extra_c = [c_ for c_ in range(81, 90)][: rng.randint(1, 3)]
+                    if rng.random() < 0.5:
+                        chs_u = chs + extra_c
+                    else:
+                        chs_u = chs[:-1]
+                    steps.append(f"add_platforms({k} platforms, {len(chs_u)} channels)")
+                    try:
+                        blk.add_platforms(its, chs_u)
+                    except Exception:
+                        pass
+                    ch, items, oerr = observed_pairs(kind, blk)
+                    rec.count("oracle:C15.bulk-add-unequal-lengths-keeps-pairing")
+                    if oerr:
+                        V("bulk-add:channel-list-and-items-disagree", "after add_platforms with lists of different lengths: " + oerr); return
+                    if len(set(ch)) != len(ch):
+                        V("bulk-add:duplicate-channel", f"{ch}"); return
+                    shadow = list(zip(ch, items))
+                    continue
                 steps.append(f"add_platforms({k}, channels={chs})")
                 try:
                     blk.add_platforms(its, chs) if withch else blk.add_platforms(its)
